@@ -289,6 +289,22 @@ func c03Run(c C03Case, record bool) (*pbt.Violation, c03Stats) {
 			}
 		}
 	}
+	// ---- two header fields wrong at once: a list that says "elements of type End" and a negative count
+	nl := 0
+	for _, r := range layout {
+		if r.Kind != rn.KListLen || nl >= 3 || r.Off < 1 {
+			continue
+		}
+		nl++
+		for _, l := range []uint32{0xffffffff, 0x80000000} {
+			in := gen.Mut{Kind: "set32", Off: r.Off, Val: l}.Apply(doc)
+			in[r.Off-1] = 0 // the element-type byte sits right before the count
+			st.field++
+			if v := try(in, "list-of-End-with-negative-length"); v != nil {
+				return v, st
+			}
+		}
+	}
 	// ---- string lengths that are negative as signed shorts (0x8000..0xffff) but fully backed by bytes:
 	// the document continues correctly after them, only the sign says "malformed"
 	ns := 0
